@@ -1283,3 +1283,27 @@ macro_rules! task_cancel_arm {
 }
 task_cancel_arm!(c15_task_cancel_arm_with_destination, true);
 task_cancel_arm!(c15_task_cancel_arm_without_destination, false);
+
+// ------------------------------------------------------------------------------------------ the permit across run() (C17)
+
+/// C17 - the leader's permit is taken in schedule() and must stay with the machine until the MPC
+/// task takes it over in state Running: whatever run() does before it dispatches on the state
+/// (it is entered first in state Validated) neither takes the permit out of the machine nor
+/// returns it.
+#[kani::proof]
+#[kani::unwind(5)]
+#[kani::stub(std::fmt::format, no_format)]
+#[kani::stub(std::collections::hash_map::RandomState::new, env_random_state)]
+fn c17_run_entry_keeps_the_permit() {
+    let mut st = EnvState::scheduled(state_validated(), false);
+    reset_answers();
+    st.permit = Some(EnvPermit);
+    let req = RunRequest { computation_id: Uuid::nil() };
+    let ret: Option<Ret<RunError>> = None;
+    seg_sc_run_head(&mut st, &req, &ret);
+    assert!(st.permit.is_some(), "C17:run:the-permit-stays-with-the-machine-until-the-mpc-task-takes-it");
+    assert!(unsafe { ENV_PERMITS_RETURNED } == 0, "C17:run:the-permit-is-not-returned-while-the-policy-is-live");
+    assert!(matches!(st.state_kind, PolicyStateKind::Validated { .. }), "C17:run:nothing-happens-to-the-state-before-the-dispatch");
+    kani::cover!(true, "reachable");
+    std::mem::forget(st);
+}
